@@ -8,6 +8,7 @@ package simmaster
 import (
 	"fmt"
 	"io"
+	"sync/atomic"
 
 	"verif/ref"
 )
@@ -23,7 +24,10 @@ type Conn interface {
 // Plan is the behaviour of the master on one connection.
 type Plan struct {
 	// Pre-stream faults: "", "err_greeting", "fin_after_greeting", "err_auth",
-	// "err_query", "fin_after_dump", "err_dump" (ERR 1236 style answer).
+	// "err_query", "fin_after_dump", "err_dump" (ERR 1236 style answer),
+	// "fin_after_auth" / "fin_after_query" / "rst_after_query" (the connection
+	// goes away after the OK to the auth packet / to the SET query: the client's
+	// next write or read fails).
 	Pre string
 	// At is the index of the stream packet (0-based, in served order) the
 	// fault applies to; -1 = no fault inside the stream.
@@ -73,7 +77,8 @@ func (c Cmd) String() string {
 // ConnLog is the wire-monitor record of one connection.
 type ConnLog struct {
 	Cmds        []Cmd
-	Released    int   // stream packets released so far
+	Released    int   // stream packets released so far (set after the write)
+	Releasing   int64 // stream packets whose release has begun (set before the write, atomically)
 	Served      []*ref.AEvent
 	SawClose    bool  // master read EOF / error from the client
 	AuthSeen    bool
@@ -143,6 +148,10 @@ func (m *Master) Serve(idx int, c Conn) {
 	if !send(ref.OK()) {
 		return
 	}
+	if plan.Pre == "fin_after_auth" {
+		c.Close()
+		return
+	}
 	for {
 		p, s, err := ref.ReadPacket(c)
 		if err != nil {
@@ -166,6 +175,14 @@ func (m *Master) Serve(idx int, c Conn) {
 				continue
 			}
 			if !send(ref.OK()) {
+				return
+			}
+			if plan.Pre == "fin_after_query" {
+				c.Close()
+				return
+			}
+			if plan.Pre == "rst_after_query" {
+				c.Reset()
 				return
 			}
 		case ref.ComBinlogDump:
@@ -209,6 +226,7 @@ func (m *Master) stream(idx int, c Conn, log *ConnLog, plan Plan, d ref.DumpRequ
 		if m.BeforePacket != nil {
 			m.BeforePacket(idx, i)
 		}
+		atomic.StoreInt64(&log.Releasing, int64(i+1))
 		_, err := c.Write(raw)
 		if err != nil {
 			log.StreamEnded = "client-closed"
